@@ -182,6 +182,10 @@ func (p *parser) processCtl(dst []node, root, r *node, ctl []byte, offset int) (
 		return dst, offset, false, nil
 	}
 	if reLoop.Match(ctl) {
+		// The loop must open a block.
+		if ctl[len(ctl)-1] != '{' {
+			return dst, offset, false, fmt.Errorf("loop without opening bracket '%s' at offset %d", ctl, offset)
+		}
 		if m := reLoopRange.FindSubmatch(ctl); m != nil {
 			r.typ = typeLoopRange
 			if bytes.Contains(m[1], comma) {
@@ -219,6 +223,10 @@ func (p *parser) processCtl(dst []node, root, r *node, ctl []byte, offset int) (
 	}
 
 	if reCondOK.Match(ctl) {
+		// The condition must open a block.
+		if ctl[len(ctl)-1] != '{' {
+			return dst, offset, false, fmt.Errorf("condition without opening bracket '%s' at offset %d", ctl, offset)
+		}
 		r.typ = typeCondOK
 		var m [][]byte
 		m = reCondAsOK.FindSubmatch(ctl)
@@ -269,6 +277,10 @@ func (p *parser) processCtl(dst []node, root, r *node, ctl []byte, offset int) (
 	}
 
 	if m := reSwitch.FindSubmatch(ctl); m != nil {
+		// The switch must open a block.
+		if ctl[len(ctl)-1] != '{' {
+			return dst, offset, false, fmt.Errorf("switch without opening bracket '%s' at offset %d", ctl, offset)
+		}
 		// Create new target, increase switch counter and dive deeper.
 		t := p.targetSnapshot()
 		p.cs++
